@@ -836,6 +836,41 @@ def leaf_lines(rng, fns, count):
                 v = rng.choice(vals) + rng.below(7) - 3
             v = max(-(2 ** 63), min(v, 9223372036854775807 - HR))
             out.append("2 %d" % v)
+    if 11 in fns or 12 in fns or 13 in fns:
+        I64MAX = 9223372036854775807
+        edge = [0, 1, -1, 2, -2, 3, 4, 5, 6, 12, -12, 2 ** 31, -(2 ** 31), 2 ** 32 + 1, 2 ** 62, -(2 ** 62), I64MAX, -I64MAX, I64MAX - 1,
+                -(I64MAX - 1), 2 ** 63 - 25]
+        fib = [1, 1]
+        while fib[-1] + fib[-2] <= I64MAX:
+            fib.append(fib[-1] + fib[-2])
+        pairs = [(x, y) for x in edge for y in edge]
+        pairs += [(fib[-1], fib[-2]), (fib[-2], fib[-1]), (-fib[-1], fib[-2]), (fib[-1], -fib[-2]), (fib[-3], fib[-1])]
+        for _ in range(count):
+            k = rng.below(5)
+            if k == 0:
+                x, y = rng.below(2 ** 64) - 2 ** 63, rng.below(2 ** 64) - 2 ** 63
+            elif k == 1:      # a properly divides b, b divides a: the cases where a cofactor is zero
+                x = rng.below(2 ** 31) - 2 ** 30
+                y = x * (rng.below(2 ** 31) - 2 ** 30)
+                if rng.below(2):
+                    x, y = y, x
+            elif k == 2:      # a large common divisor
+                g = 1 + rng.below(2 ** 30)
+                x, y = g * (rng.below(2 ** 32) - 2 ** 31), g * (rng.below(2 ** 32) - 2 ** 31)
+            elif k == 3:      # consecutive Fibonacci numbers: the longest runs of the loop
+                i = 2 + rng.below(len(fib) - 2)
+                x, y = fib[i] * rng.choice([1, -1]), fib[i - 1] * rng.choice([1, -1])
+                if rng.below(2):
+                    x, y = y, x
+            else:
+                x, y = rng.below(2001) - 1000, rng.below(2001) - 1000
+            pairs.append((x, y))
+        for x, y in pairs:
+            x = max(-I64MAX, min(I64MAX, x))      # INT64_MIN is outside the defined domain (GcdProofs.gcdExt_min_*)
+            y = max(-I64MAX, min(I64MAX, y))
+            for fn in (11, 12, 13):
+                if fn in fns:
+                    out.append("%d %d %d" % (fn, x, y))
     for fn in (3, 6, 8):
         if fn in fns:
             for e in small + big32 + [I32MIN]:
